@@ -445,6 +445,54 @@ def check_sibling_defaults(res, prop, cm, m, single):
               % (m.key(), pm[0].get('name'), enum.split('::')[1], dm, single.key(), enum.split('::')[1], ds))
 
 
+def emptied_by_purge(top, m, roles):
+    """ut_map / ut_set range lookup: the path established, before its purge, that the ttl list is empty or that its LAST node (the
+    latest deadline, C16) has expired at the very instant the purge is given: the purge (C17: it removes every expired entry) leaves
+    nothing stored, so every lookup of the range misses and the keys may be answered by a loop that touches no container state (the
+    engine folds such a loop into a `range` event).  The oldest node having expired says nothing of the kind."""
+    if roles.kind != 'maplist' or ops.kind_of(m) != 'FIND':
+        return False
+    pl = ops.purge_loops(top)
+    if not pl or any(i not in pl for i in range(len(top.loops))):
+        return False
+    if [e for e in top.state_effects() if e.kind != 'AUX_ERASE_RANGE']:
+        return False
+    if not any(e[0] == 'range' and isinstance(e[1], tuple) and root_of(e[1])[0] == 'param' for e in top.path.trace):
+        return False
+    nows = set()
+    for i in pl:
+        for s2 in top.loops[i][1]:
+            for c in s2.conds_of('EXPIRED'):
+                nows.add(c[1][1])
+    for c in top.conds:
+        if c[0] == 'AUX_NONEMPTY' and c[2] is False and isinstance(c[4], tuple) and c[4][:1] == ('q',) and c[4][-1] == 0:
+            return True
+        if c[0] == 'EXPIRED' and c[2] is True and isinstance(c[1][0], Ent) and c[1][0].kind == 'FROMEND' and c[1][0].arg == -1 \
+                and (c[1][0].epoch or 0) == 0 and len(nows) == 1 and c[1][1] in nows:
+            return True
+    return False
+
+
+def decision_equivalent(rs, ss):
+    """are the two sets of path summaries (conds, effects, answer) the same function of the predicates they test?  Every total
+    valuation of the predicates that occur on either side selects the paths whose tests agree with it; a valuation that selects no
+    path on one side is one that side's pruning found contradictory (a total, deterministic body takes some path on every input),
+    for all the others the selected (effects, answer) sets must be equal."""
+    import itertools
+    atoms = sorted(set((c[0], c[2]) for sm in (set(rs) | set(ss)) for c in sm[0]))
+    if len(atoms) > 14:
+        return False
+    for bits in itertools.product((True, False), repeat=len(atoms)):
+        asg = dict(zip(atoms, bits))
+        ra = set((sm[1], sm[2]) for sm in rs if all(asg[(c[0], c[2])] == bool(c[1]) for c in sm[0]))
+        sa = set((sm[1], sm[2]) for sm in ss if all(asg[(c[0], c[2])] == bool(c[1]) for c in sm[0]))
+        if not ra or not sa:
+            continue
+        if ra != sa:
+            return False
+    return True
+
+
 def rule_c18(an, res):
     prop = 'C18'
     for cm, roles in an.classes():
@@ -481,6 +529,23 @@ def rule_c18(an, res):
                     res.ob('R-SIB-BODY', ok=True)       # empty range (or erase_range on an empty container): no single operation to compare with
                     continue
                 bodies = ops.find_bodies(top, m)
+                if not bodies and emptied_by_purge(top, m, roles):
+                    res.ob('R-SIB-BODY', ok=True)
+                    msg = ('%s::%s: a path on which the purge leaves nothing stored (the ttl list was empty, or its newest entry had '
+                           'expired at the instant the purge uses) answers the range without consulting the index; relies on the deadline '
+                           'order (C16) and on the purge removing every expired entry (C17), both checked on this tree' % (cm.name, m.key()))
+                    if msg not in res.assumptions:
+                        res.assumptions.append(msg)
+                    continue
+                from rules_pos import carried_destination
+                cd = [b for b in bodies if carried_destination(b, b.seg.effs('MOVE'))]
+                if cd:
+                    msg = ('G-UNKNOWN splice destination held in an iterator variable that is carried from one range element to the next '
+                           '(a loop invariant about that variable would be needed) in %s reached from %s::%s'
+                           % (show_site(cd[0].seg.effs('MOVE')[0].site), cm.name, m.key()))
+                    if msg not in res.incomplete:
+                        res.incomplete.append(msg)
+                    continue
                 rsum = set()
                 for b in bodies:
                     rsum.add(body_summary(b, roles, subject_subst(b, m)))
@@ -498,6 +563,10 @@ def rule_c18(an, res):
                         want.add(sm)
                 ok = rsum == (want if decided else ssum)
                 ssum_cmp = want if decided else ssum
+                if not ok and rsum and ssum_cmp and decision_equivalent(rsum, ssum_cmp):
+                    # the same decisions taken in another order (or one of them taken although the others already settle the outcome):
+                    # the two forms are the same function from the tested predicates to (effects, answer)
+                    ok = True
                 res.ob('R-SIB-BODY', ok=ok)
                 res.sample(dict(container=cm.name, range=m.key(), single=single.key(), body_paths=len(rsum), equal=ok), cap=14)
                 if not ok:
